@@ -46,7 +46,7 @@ def options(draw, integrators=('Euler', 'Euler', 'implicitfast', 'implicitfast',
   a['cone'] = draw(st.sampled_from(list(cones)))
   a['jacobian'] = draw(st.sampled_from(['dense', 'auto']))
   a['iterations'] = str(iterations)
-  a['tolerance'] = '0'
+  a['tolerance'] = '1e-15'    # not 0: MJX's Newton solver returns NaN when it converges exactly (0/0 in the line search, F27)
   a['ls_iterations'] = '50'
   a['ls_tolerance'] = '1e-9'
   if gravity and draw(st.integers(0, 3)) == 0:
@@ -338,7 +338,7 @@ def get_data_roundtrips_contacts(md):
 # One template per worker is run before the random models; numeric parameters are drawn by Hypothesis.
 
 _OPT = ('<option timestep="%(dt)s" integrator="%(int)s" solver="Newton" cone="%(cone)s" jacobian="dense" iterations="60" '
-        'tolerance="0" ls_iterations="50" ls_tolerance="1e-9" impratio="%(imp)s"/>')
+        'tolerance="1e-15" ls_iterations="50" ls_tolerance="1e-9" impratio="%(imp)s"/>')
 
 _T_CONTACT = ('<mujoco>' + _OPT + '<worldbody><geom name="floor" type="plane" size="3 3 .1" condim="3"/>'
               '<body name="b1" pos="0 0 %(z1)s"><joint name="j1_0" type="free"/><geom name="g1" type="capsule" size="%(r1)s %(l1)s" '
